@@ -36,6 +36,9 @@
      claim_starts_at_committed_or_initial, cleanup_once_after_claims_returned,
      final_commit_after_cleanup, consume_returns_last, requests_carry_issued_identity,
      fenced_member_rejoins_fresh, no_skip_across_sessions, consume_hang, close_hang, consume_panic,
+     identity_kept_unless_fenced (a JoinGroup carries the id of the client's last successful join unless an UNKNOWN_MEMBER_ID or
+     ILLEGAL_GENERATION answer reached the client since, or it left), leave_on_close (Close of a member holding such an id sends
+     LeaveGroup; premise: coordinator reachable), final commit after a coordinator move reaches the new coordinator,
      channels_closed_after_close (Close returned but the Errors() channel was never closed: the driver drains it
      after every Close and the watchdog reports hang{what: "errors_not_closed"}; errors_closed c is the good case) *)
 EXTENDS Integers, Sequences, FiniteSets
@@ -68,6 +71,10 @@ ObsInit ==
    cur |-> [c \in OC |-> NoPair],            \* identity the coordinator issued last
    ids |-> [c \in OC |-> {}],                \* member ids ever issued to the client
    fenced |-> [c \in OC |-> FALSE],          \* last join/sync answer was UNKNOWN_MEMBER_ID
+   idfree |-> [c \in OC |-> FALSE],          \* an UNKNOWN_MEMBER_ID / ILLEGAL_GENERATION answer reached the client since its last
+                                             \* successful join (the code may drop the member id), or it left the group
+   left |-> [c \in OC |-> FALSE],            \* a LeaveGroup request was seen since the last successful join
+   nstale |-> [c \in OC |-> 0],              \* commit requests after Cleanup that went to a broker that is not the coordinator
    oretry |-> 3,                             \* Consumer.Offsets.Retry.Max: the final commit has oretry + 1 attempts
    nfin |-> [c \in OC |-> 0],                \* commit requests seen after Cleanup in this call
    nconn |-> [c \in OC |-> 0],               \* requests of this call that were dropped (an attempt can be lost unseen)
@@ -96,7 +103,7 @@ OReset(o, e) ==
 OConsumeCall(o, e) ==
   LET c == e.c IN
   [o EXCEPT !.ph[c] = "called", !.claims[c] = {}, !.started[c] = {}, !.returned[c] = {},
-            !.sessEnd[c] = FALSE, !.hbconn[c] = 0, !.nfin[c] = 0, !.nconn[c] = 0,
+            !.sessEnd[c] = FALSE, !.hbconn[c] = 0, !.nfin[c] = 0, !.nconn[c] = 0, !.nstale[c] = 0,
             !.nextoff[c] = [p \in OP |-> -1], !.first[c] = [p \in OP |-> FALSE],
             !.marks[c] = [p \in OP |-> {}], !.sent[c] = [p \in OP |-> {}], !.acc[c] = [p \in OP |-> {}],
             !.bad = {}]
@@ -152,6 +159,8 @@ FinalCommitOk(o, c) ==
           \/ MaxOf(o.marks[c][p]) \in o.acc[c][p]
           \/ o.nfin[c] + o.nconn[c] >= o.oretry + 1
   /\ o.auto = "slow" => o.nfin[c] <= o.oretry + 1
+  \* the coordinator moved: an attempt refused by the old broker is followed (budget permitting) by one to the new coordinator
+  /\ (o.oretry >= 1 /\ o.nstale[c] >= 1 /\ o.nconn[c] = 0) => o.nfin[c] > o.nstale[c]
 
 OConsumeRet(o, e) ==
   LET c == e.c IN
@@ -159,28 +168,41 @@ OConsumeRet(o, e) ==
             !.bad = W(o.ph[c] = "setup", "cleanup_once_after_claims_returned")
                     \cup W(o.ph[c] = "cleanup" /\ o.auto # "off" /\ ~o.cdown /\ ~FinalCommitOk(o, c), "final_commit_after_cleanup")]
 
+IsStale(e) == "stale" \in DOMAIN e /\ e.stale
+
+\* Close returned: a member that holds an id the coordinator issued (and was not told to drop it) has sent LeaveGroup
+OCloseRet(o, e) ==
+  LET c == e.c IN
+  [o EXCEPT !.bad = W(o.cur[c] # NoPair /\ ~o.idfree[c] /\ ~o.left[c] /\ ~o.cdown, "leave_on_close")]
+
 OJoinReq(o, e) ==
   LET c == e.c IN
   [o EXCEPT !.fenced[c] = FALSE,
             !.bad = W(e.mid # "" /\ e.mid \notin o.ids[c], "requests_carry_issued_identity")
+                    \* the id the coordinator issued is kept unless a fence (or illegal-generation) answer allowed dropping it
+                    \cup W(o.cur[c] # NoPair /\ ~o.idfree[c] /\ e.mid # o.cur[c][1], "identity_kept_unless_fenced")
                     \cup W(o.fenced[c] /\ e.mid # "", "fenced_member_rejoins_fresh")]
 
 OJoinResp(o, e) ==
   LET c == e.c IN
-  IF e.err = "ok" THEN [o EXCEPT !.cur[c] = <<e.mid, e.gen>>, !.ids[c] = @ \cup {e.mid}, !.bad = {}]
-  ELSE IF e.err = "unknown" THEN [o EXCEPT !.fenced[c] = TRUE, !.bad = {}]
+  IF e.err = "ok" THEN [o EXCEPT !.cur[c] = <<e.mid, e.gen>>, !.ids[c] = @ \cup {e.mid}, !.idfree[c] = FALSE, !.left[c] = FALSE, !.bad = {}]
+  ELSE IF e.err = "unknown" THEN [o EXCEPT !.fenced[c] = TRUE, !.idfree[c] = TRUE, !.bad = {}]
+  ELSE IF e.err = "illegal" THEN [o EXCEPT !.idfree[c] = TRUE, !.bad = {}]
   ELSE [o EXCEPT !.bad = {}]
 
 OSyncReq(o, e) ==
   [o EXCEPT !.bad = W(<<e.mid, e.gen>> # o.cur[e.c], "requests_carry_issued_identity")]
 
 OSyncResp(o, e) ==
-  IF e.err = "unknown" THEN [o EXCEPT !.fenced[e.c] = TRUE, !.bad = {}] ELSE [o EXCEPT !.bad = {}]
+  IF e.err = "unknown" THEN [o EXCEPT !.fenced[e.c] = TRUE, !.idfree[e.c] = TRUE, !.bad = {}]
+  ELSE IF e.err = "illegal" THEN [o EXCEPT !.idfree[e.c] = TRUE, !.bad = {}]
+  ELSE [o EXCEPT !.bad = {}]
 
 OHb(o, e) ==
   LET c == e.c
       lost == IF e.err = "conn" THEN o.hbconn[c] + 1 ELSE 0 IN
   [o EXCEPT !.hbconn[c] = lost, !.nconn[c] = IF e.err = "conn" THEN @ + 1 ELSE @,
+            !.idfree[c] = @ \/ e.err \in {"unknown", "illegal"},
             !.sessEnd[c] = @ \/ (e.err \notin {"ok", "conn"}) \/ lost > o.hbretry,
             !.bad = W(<<e.mid, e.gen>> # o.cur[c], "requests_carry_issued_identity")
                     \cup W(o.ph[c] = "out", "consume_returns_last")]
@@ -190,6 +212,8 @@ OCommit(o, e) ==
       bl == ToSetO(e.blocks)
       offs(p) == {b[2] : b \in {x \in bl : x[1] = p}} IN
   [o EXCEPT !.nfin[c] = IF o.ph[c] = "cleanup" THEN @ + 1 ELSE @,
+            !.nstale[c] = IF o.ph[c] = "cleanup" /\ IsStale(e) THEN @ + 1 ELSE @,
+            !.idfree[c] = @ \/ e.err \in {"unknown", "illegal"},
             !.nconn[c] = IF e.err = "conn" THEN @ + 1 ELSE @,
             !.sent[c] = IF o.ph[c] = "cleanup" THEN [p \in OP |-> o.sent[c][p] \cup offs(p)] ELSE @,
             !.acc[c] = IF e.applied THEN [p \in OP |-> o.acc[c][p] \cup offs(p)] ELSE @,
@@ -199,7 +223,8 @@ OCommit(o, e) ==
                     \cup W(\E b \in bl : b[1] \notin OP \/ b[2] \notin o.marks[c][b[1]], "no_skip_across_sessions")]
 
 OLeave(o, e) ==
-  [o EXCEPT !.bad = W(e.mid \notin o.ids[e.c], "requests_carry_issued_identity")]
+  [o EXCEPT !.left[e.c] = TRUE, !.idfree[e.c] = @ \/ e.err \in {"ok", "unknown", "rebalance"},
+            !.bad = W(e.mid \notin o.ids[e.c], "requests_carry_issued_identity")]
 
 \* C08 on the wire: the assignments the leader hands to SyncGroup cover every partition the cluster metadata lists for
 \* the subscribed topic exactly once, go only to known members subscribed to it, and name no other topic / partition
@@ -224,6 +249,7 @@ ObsStep(o, e) ==
     [] e.ev = "consume_call" -> OConsumeCall(o, e)
     [] e.ev = "consume_ret" -> OConsumeRet(o, e)
     [] e.ev = "cancel" -> [o EXCEPT !.cancelled[e.c] = TRUE, !.bad = {}]
+    [] e.ev = "close_ret" -> OCloseRet(o, e)
     [] e.ev = "close_call" -> [o EXCEPT !.closed[e.c] = TRUE, !.bad = {}]
     [] e.ev = "setup" -> OSetup(o, e)
     [] e.ev = "claim_start" -> OClaimStart(o, e)
